@@ -39,6 +39,7 @@ def seqOut : Except SeqErr (List Json) → Json
   | .error (.item i) => err "item" [("i", Json.num i)]
   | .error .coerce => err "coerce"
   | .error .rawTypeError => err "raw"
+  | .error .constraint => err "constraint"
 
 def tupOut : Except TupErr (List Json) → Json
   | .ok xs => ok (jarr xs)
@@ -52,6 +53,7 @@ def mapOut : Except (MapErr Json) (List (Json × Json)) → Json
   | .error (.key k) => err "key" [("k", k)]
   | .error (.value k) => err "value" [("k", k)]
   | .error .coerce => err "coerce"
+  | .error .constraint => err "constraint"
 
 def dataOut : Except (DataErr String) (List (String × Json)) → Json
   | .ok kvs => ok (jspairs kvs)
@@ -77,13 +79,27 @@ def handleSeq (j : Json) : Json :=
   else
     let p := parserOf (fld j "items")
     let xs := (tableOf (fld j "items")).map (·.1)
-    let model := if bool! (fld j "legacy") then parseSeqLegacyFrom k.subscriptable pol p 0 xs else parseSeq pol p xs
-    let strictClean := parseSeq .throw p (removeOffenders p xs)
+    -- validators of a constrained container (`min_length` / `max_length`), run after the policy loop
+    let cons : List Json → Bool := fun rs =>
+      (match optNat (fld j "min_length") with | some n => decide (rs.length ≥ n) | none => true) &&
+      (match optNat (fld j "max_length") with | some n => decide (rs.length ≤ n) | none => true)
+    let W : World Json := { asSeq := fun _ _ => some xs, mkSeq := fun _ rs => jarr rs,
+                            asMap := fun _ => none, mkMap := fun _ => Json.null }
+    let viaRule : Except SeqErr Json → Except SeqErr (List Json)
+      | .ok v => .ok (arr! v)
+      | .error e => .error e
+    let model := if bool! (fld j "legacy") then parseSeqLegacyFrom k.subscriptable pol p 0 xs
+                 else viaRule (parseSeqRuleC W k pol p cons Json.null)
+    let W' : World Json := { W with asSeq := fun _ _ => some (removeOffenders p xs) }
+    let strictClean := viaRule (parseSeqRuleC W' k .throw p cons Json.null)
     let spec := match pol with
-      | .exclude => seqOut strictClean                       -- C11_seq_exclude
-      | .preserve => putBackOut p xs strictClean             -- C11_seq_preserve
-      | .throw => seqOut (parseSeq .throw p xs)
-    Json.mkObj [("model", seqOut model), ("spec", spec)]
+      | .exclude => seqOut strictClean                       -- C11_seq_rule_exclude_constrained
+      | .preserve => (match strictClean with
+          | .error .constraint => seqOut model               -- the literal sentence has no right-hand side here
+          | _ => putBackOut p xs strictClean)                -- C11_seq_rule_preserve_constrained_partial (literal side)
+      | .throw => seqOut (viaRule (parseSeqRuleC W k .throw p cons Json.null))
+    let known := pol == .preserve && KnownDefect.consRejectsPutBack p cons xs
+    Json.mkObj [("model", seqOut model), ("spec", spec), ("known_defect", Json.bool known)]
 
 def extraOf (j : Json) : TupExtra Json :=
   match str! (fld j "extra") with
